@@ -206,8 +206,10 @@ NAMED_TYPES = ['nbody', 'njnt', 'ngeom', 'nsite', 'ncam', 'nlight', 'nflex', 'nm
 
 
 def make_model_hook(exe, st, node, args):
-    """ASSUMED contract of mj_makeModel(&m, sizes...), applied at its call sites (its body - allocation arithmetic over
-    one raw buffer - is not verified).  Either *dest is left alone, or it points to a fresh mjModel whose size fields
+    """Contract of mj_makeModel(&m, sizes...) as the loader uses it, applied at its call sites.  The part about the size
+    checks, the size fields, nnames_map and nbuffer is PROVED on the body of mj_makeModel (unit mj_makeModel, makemodel_contract
+    below states the same facts); what stays assumed is the object view of the buffer: the pointer fields are separate arrays
+    of the X-macro lengths (mj_setPtrModel places them inside one raw buffer; not verified).  Either *dest is left alone, or it points to a fresh mjModel whose size fields
     hold the arguments BY PARAMETER NAME (names and order read from the real declaration), whose pointer fields are
     separate arrays of the lengths the X-macro table gives for those sizes, with nnames_map = mjLOAD_MULTIPLE * (number
     of nameable objects), and the arguments satisfy the size checks mj_makeModel makes before allocating."""
@@ -309,6 +311,32 @@ def setptr_contract():
     }
 
 
+def makemodel_setup(exe, st, res):
+    """*dest == NULL at entry (the loader's call: a fresh model is requested)"""
+    from vlib.state import NULLP
+    d = res.params['dest']
+    st.store(exe._normalize(d), NULLP(d.ct.to if hasattr(d.ct, 'to') else None))
+
+
+def makemodel_contract():
+    """mj_makeModel(&m, sizes...): verified against what the loader's hook assumes about it.  mju_malloc returns NULL or a
+    fresh object; mj_setPtrModel (array placement) and the mj_default* initialisers are effect-free on the size fields."""
+    params = modeltab.make_model_params()
+    P = modeltab.model_pointers()
+    made = 'dest[0] != NULL'
+    ens = {'sizes_passed_the_checks': (made, ' and '.join('%s >= 0' % p + ('' if p in ('ntexdata', 'ntextdata') else ' and %s < 2**31 - 1' % p) for p in params)),
+           'nbody_positive_and_mocap_bodies_are_bodies': (made, 'nbody >= 1 and nmocap <= nbody'),
+           'size_fields_hold_the_arguments': (made, ' and '.join('dest[0].%s == %s' % (p, p) for p in params)),
+           'names_map_size': (made, 'dest[0].nnames_map == 2 * (%s) and dest[0].nnames_map < 2**31 - 1' % ' + '.join(NAMED_TYPES)),
+           'buffer_size_in_range': (made, 'dest[0].nbuffer >= 0 and dest[0].nbuffer < 2**63')}
+    return {
+        'params': {'dest': {'n': 1}},
+        'requires': {},
+        'ensures': ens, 'quiet_trivial': True, 'strict_unsigned': True, 'opaque_products': True, 'prune_ms': 0,
+        'error_only_if': 'true',        # the two allocation-failure exits (mjERROR) are the documented out-of-memory behaviour
+    }
+
+
 VALIDATE = {
     'params': {'m': None},       # filled in contracts()
     'requires': {},
@@ -378,6 +406,15 @@ def contracts():
     C['__blob_memcpy__'] = True
     C['__blob_forget_all__'] = True
     C['safeAddToBufferSize'] = SAFEADD
+    C['mj_makeModel'] = makemodel_contract()
+    # callees of mj_makeModel (assumed): the allocator returns NULL or a fresh block; the placement of the array pointers and
+    # the default initialisers do not touch the size fields
+    C['mju_malloc'] = {'assumed': True, 'requires': {}, 'assigns': [], 'ensures': {}, 'result_bytes': 'size'}
+    C['mj_setPtrModel'] = {'assumed': True, 'requires': {}, 'assigns': [], 'ensures': {}}
+    C['mj_defaultOption'] = {'assumed': True, 'requires': {}, 'assigns': ['opt.*'], 'ensures': {}}
+    C['mj_defaultVisual'] = {'assumed': True, 'requires': {}, 'assigns': ['vis.*'], 'ensures': {}}
+    C['mj_defaultStatistic'] = {'assumed': True, 'requires': {}, 'assigns': ['stat.*'], 'ensures': {}}
+    C['freeModelBuffers'] = {'assumed': True, 'requires': {}, 'assigns': [], 'ensures': {}}
     # mj_setPtrModel: contract written (setptr_contract: every array pointer lands on its documented, 64-byte aligned offset of
     # the buffer; error exactly when nbuffer differs from the documented total) but its ~6000 obligations - modular arithmetic
     # over the 486-step layout recurrence - are not discharged within a usable budget, so it is NOT registered as a unit.
